@@ -363,6 +363,27 @@ func caseTypes(c *Ctx, ts *ast.TypeSwitchStmt, pred func(types.Type) bool) []str
 // unconditional installation of the visited entry — Add(value) / Set(key, value) on the result, or the direct forms
 // result.val[key] = parseVal(value), result.val = append(result.val, parseVal(value)) — and the result is returned.
 func (c *Ctx) elementWiseArm(v *sxView, p *Path, operand Term, isList bool) string {
+	msg := c.elementWiseArmShape(v, p, operand, isList)
+	if msg == "" {
+		return ""
+	}
+	// not the plain loop shape: decide the construction on the spine model (k = 0..3 entries)
+	var par types.Object
+	if v.fd != nil {
+		par = soleParam(c, v.fd)
+	}
+	elemKind := ""
+	if a, ok := operand.(TAssert); ok {
+		elemKind = c.elemKindOf(a.To)
+	}
+	bad, undec := c.foldBuildInto(v, p, operand, par, false, isList, false, elemKind, wantFrom)
+	if bad == "" && undec == "" {
+		return ""
+	}
+	return msg + "; folded on the spine model: " + bad + undec
+}
+
+func (c *Ctx) elementWiseArmShape(v *sxView, p *Path, operand Term, isList bool) string {
 	verb := "Set"
 	if isList {
 		verb = "Add"
